@@ -89,6 +89,9 @@ func (fc *FnCtx) reset(pass int) {
 	fc.qn = 0
 	fc.keyObj = map[heapKey]*types.Var{}
 	fc.owned = nil
+	fc.invCallOrd = 0
+	fc.wlog, fc.alog, fc.freshOnly = nil, nil, nil
+	fc.invKeys = nil
 	if pass == 1 {
 		fc.keys = map[any]bool{}
 		fc.keyOrder = nil
@@ -102,12 +105,25 @@ func (fc *FnCtx) nextQ() int { fc.qn++; return fc.qn }
 // VerifyFunc generates the obligations of one function under contract.
 func (eng *Engine) VerifyFunc(c *FuncContract) (res *FuncResult) {
 	res = &FuncResult{Name: shortFuncName(c.Key), Key: c.Key}
-	src := eng.prog.FuncDecls[c.Key]
+	outerKey, local := c.Key, ""
+	if i := strings.Index(c.Key, "$"); i >= 0 {
+		outerKey, local = c.Key[:i], c.Key[i+1:]
+	}
+	src := eng.prog.FuncDecls[outerKey]
 	if src == nil || src.Decl.Body == nil {
-		res.Unbound = append(res.Unbound, "function "+c.Key+" not found in the loaded packages")
+		res.Unbound = append(res.Unbound, "function "+outerKey+" not found in the loaded packages")
 		return res
 	}
 	fc := eng.newFnCtx(src, c)
+	fc.fnBody, fc.fnSig, fc.fnPos = src.Decl.Body, src.Obj.Type().(*types.Signature), src.Decl.Pos()
+	if local != "" {
+		lit := findLocalLit(src, local)
+		if lit == nil {
+			res.Unbound = append(res.Unbound, "function literal bound to "+local+" not found in "+outerKey)
+			return res
+		}
+		fc.fnBody, fc.fnSig, fc.fnPos = lit.Body, src.Pkg.TypesInfo.TypeOf(lit).(*types.Signature), lit.Pos()
+	}
 	defer func() {
 		if r := recover(); r != nil {
 			switch e := r.(type) {
@@ -152,9 +168,46 @@ func (eng *Engine) VerifyFunc(c *FuncContract) (res *FuncResult) {
 	return res
 }
 
+// findLocalLit finds the function literal assigned to the local variable `name` in a function.
+func findLocalLit(src *FuncSrc, name string) *ast.FuncLit {
+	var found *ast.FuncLit
+	ast.Inspect(src.Decl.Body, func(n ast.Node) bool {
+		if found != nil {
+			return false
+		}
+		switch x := n.(type) {
+		case *ast.AssignStmt:
+			for i, l := range x.Lhs {
+				if id, ok := l.(*ast.Ident); ok && id.Name == name && i < len(x.Rhs) {
+					if lit, ok := ast.Unparen(x.Rhs[i]).(*ast.FuncLit); ok {
+						found = lit
+					}
+				}
+			}
+		case *ast.ValueSpec:
+			for i, id := range x.Names {
+				if id.Name == name && i < len(x.Values) {
+					if lit, ok := ast.Unparen(x.Values[i]).(*ast.FuncLit); ok {
+						found = lit
+					}
+				}
+			}
+		}
+		return true
+	})
+	return found
+}
+
+type fakeDecl struct {
+	Body *ast.BlockStmt
+	pos  token.Pos
+}
+
+func (d fakeDecl) Pos() token.Pos { return d.pos }
+
 func (fc *FnCtx) run() {
-	decl := fc.src.Decl
-	sig := fc.src.Obj.Type().(*types.Signature)
+	decl := fakeDecl{Body: fc.fnBody, pos: fc.fnPos}
+	sig := fc.fnSig
 	st := &State{live: tTrue, vars: map[any]Term{}}
 	fc.entry = st
 	if fc.pass == 2 {
@@ -207,6 +260,7 @@ func (fc *FnCtx) run() {
 		t := fc.contractExprAt(st, r, decl.Body.Lbrace+1)
 		fc.assume(st, t)
 	}
+	fc.assumePkgInvs(st)
 	fc.entry = st.clone()
 	fc.cover(st, "cover-pre", decl.Pos())
 	fc.runAnchors(st, "entry", "", 0, decl.Body.Lbrace+1, nil)
@@ -300,10 +354,10 @@ func (fc *FnCtx) contractExprAtWith(st *State, c *Clause, pos token.Pos, extra m
 				ce.names["result"] = v
 			}
 		}
-		ce.scopePos = fc.src.Decl.Body.Lbrace + 1
+		ce.scopePos = fc.fnBody.Lbrace + 1
 	}
 	if c.Kind == "requires" {
-		ce.scopePos = fc.src.Decl.Body.Lbrace + 1
+		ce.scopePos = fc.fnBody.Lbrace + 1
 	}
 	return ce.boolExpr(c.Expr)
 }
